@@ -195,7 +195,7 @@ class StoreRun:
         ok2 = self.flush()
         # the observed order of StoreLock actions (writer 1 = this thread, writer 2 = the second thread)
         x = aid(block)
-        fl = [{"a": a, "w": 1, "b": 0} for a in ("acquire", "write", "clear", "release")]
+        fl = [{"a": a, "w": 1, "b": 0} for a in ("acquire", "write", "commit", "clear", "release")]
         add = {"a": "add", "w": 2, "b": x}
         if not buffer0:
             evs = [add] + fl                     # nothing to write: the first flush did not reach its disk write
@@ -213,7 +213,97 @@ class StoreRun:
             disk_end = [-1]
         if not hasattr(self, "lock_traces"):
             self.lock_traces = []
-        self.lock_traces.append({"buffer0": buffer0, "disk0": disk0, "events": evs, "disk_end": disk_end})
+        self.lock_traces.append({"buffer0": buffer0, "disk0": disk0, "events": evs, "disk_end": disk_end, "errors": []})
+        return ok and ok2
+
+    def flush_with_concurrent_flush(self, block, wait=0.3):
+        """Both writers flush: while this thread's flush is between BEGIN and COMMIT of its disk write (parked by a proxy around the
+        store's one SQLite connection), a second thread hands `block` over and flushes.  With the lock held over the whole flush the
+        second thread waits; whichever way the race goes, afterwards every block handed over must be on disk and neither thread may have
+        seen an error."""
+        import threading
+        store = self.store
+        aid = lambda b: abstract_block(self.w, b)["id"]
+        buffer0 = [aid(b) for b in self.buffered]
+        disk0 = sorted(aid(b) for b in self.written.values())
+        errors, during, started = [], [], []
+        done = threading.Event()
+
+        def second():
+            try:
+                store.add_block_to_buffer(block)
+                store.flush_blocks_to_disk()
+            except Exception as e:      # an exception of the code under test is an observation
+                errors.append("second writer: %r" % e)
+            done.set()
+        th = threading.Thread(target=second, daemon=True)
+        real = store.connection
+
+        class Cur:
+            def __init__(self, c):
+                self.c = c
+
+            def execute(self, sql, *a):
+                if isinstance(sql, str) and sql.strip().upper().startswith("COMMIT") and not started and threading.current_thread() is not th:
+                    started.append(1)
+                    th.start()
+                    done.wait(wait)
+                    during.append(done.is_set())
+                return self.c.execute(sql, *a)
+
+            def __getattr__(self, n):
+                return getattr(self.c, n)
+
+        class Con:
+            def cursor(self_):
+                return Cur(real.cursor())
+
+            def __getattr__(self_, n):
+                return getattr(real, n)
+        store.connection = Con()
+        ok = True
+        try:
+            try:
+                store.flush_blocks_to_disk()          # (the read-back comparison follows once both writers are through)
+            except Exception as e:
+                errors.append("first writer: %r" % e)
+                ok = False
+        finally:
+            store.connection = real
+        if not started:
+            th.start()
+        th.join(10)
+        if th.is_alive():
+            raise RuntimeError("the second writer never finished")
+        self.buffered.append(block)
+        self.mem = self.mem.add_block_no_validation(block)
+        self.events.append({"op": "buffer", "blk": abstract_block(self.w, block)})
+        try:
+            ok2 = self.flush()
+        except Exception as e:
+            errors.append("final flush: %r" % e)
+            ok2 = False
+        x = aid(block)
+        fl1 = [{"a": a, "w": 1, "b": 0} for a in ("acquire", "write", "commit", "clear", "release")]
+        fl2 = [{"a": a, "w": 2, "b": 0} for a in ("acquire", "write", "commit", "clear", "release")]
+        add = {"a": "add", "w": 2, "b": x}
+        if not buffer0:
+            evs = [add] + fl2
+        elif during and during[0]:
+            evs = fl1[:2] + [add] + fl2 + fl1[2:]       # the second writer got through while the first one's transaction was open
+        else:
+            evs = fl1 + [add] + fl2
+        try:
+            import sqlite3
+            con = sqlite3.connect(self.path)
+            hashes = [r[0] for r in con.execute("select block_hash from chain")]
+            con.close()
+            disk_end = sorted(self.w.balias(bytes(h)) for h in hashes)
+        except Exception:
+            disk_end = [-1]
+        if not hasattr(self, "lock_traces"):
+            self.lock_traces = []
+        self.lock_traces.append({"buffer0": buffer0, "disk0": disk0, "events": evs, "disk_end": disk_end, "errors": errors})
         return ok and ok2
 
     def trace(self, tid):
